@@ -34,6 +34,7 @@ def Syncing : Variant → Prop
 
 def NotOrigFile : Variant → Prop
   | .fileOrig => False
+  | .genNoTrunc => False
   | _ => True
 
 theorem take_all {α} (l : List α) (n : Nat) (h : n = l.length) : l.take n = l := by
@@ -55,6 +56,9 @@ theorem invV_step (v : Variant) (hv : NotOrigFile v) (old : Option Bytes) (new :
     cases ok <;> cases pc <;> cases v <;>
       simp_all [step?, next, InvV, apply, absent, NotOrigFile] <;>
       (try subst_vars) <;> (try simp_all)
+  | openKeep ok =>
+    cases ok <;> cases pc <;> cases v <;>
+      simp_all [step?, next, InvV, apply, absent, NotOrigFile]
   | write n ok =>
     cases ok <;> cases pc <;> cases v <;>
       simp_all [step?, next, InvV, apply, absent, NotOrigFile, writeValid] <;>
@@ -78,8 +82,8 @@ theorem invV_step (v : Variant) (hv : NotOrigFile v) (old : Option Bytes) (new :
       simp_all [step?, next, InvV, apply, absent, NotOrigFile] <;>
       (try subst_vars) <;> (try simp_all)
 
-theorem invD_step (v : Variant) (hv : Syncing v) (old : Option Bytes) (new : Bytes)
-    (s : St) (op : Op) (s' : St) (hd : InvD old new s) (hvv : InvV old new s)
+theorem invD_step (v : Variant) (hv : Syncing v) (old oldv : Option Bytes) (new : Bytes)
+    (s : St) (op : Op) (s' : St) (hd : InvD old new s) (hvv : InvV oldv new s)
     (hs : step? v new s op = some s') : InvD old new s' := by
   obtain ⟨fs, pc⟩ := s
   obtain ⟨hcur, htmp⟩ := hd
@@ -89,6 +93,9 @@ theorem invD_step (v : Variant) (hv : Syncing v) (old : Option Bytes) (new : Byt
     cases ok <;> cases pc <;> cases v <;>
       simp_all [step?, next, InvD, InvV, apply, absent, Syncing] <;>
       (try subst_vars) <;> (try simp_all)
+  | openKeep ok =>
+    cases ok <;> cases pc <;> cases v <;>
+      simp_all [step?, next, InvD, InvV, apply, absent, Syncing]
   | write n ok =>
     cases ok <;> cases pc <;> cases v <;>
       simp_all [step?, next, InvD, InvV, apply, absent, Syncing, writeValid] <;>
@@ -119,9 +126,53 @@ theorem inv_run (v : Variant) (hv : Syncing v) (old : Option Bytes) (new : Bytes
   have hn : NotOrigFile v := by cases v <;> simp_all [Syncing, NotOrigFile]
   have := TS.invariant_of_step (step? v new) (fun s => InvV old new s ∧ InvD old new s)
     (fun s op s' hi hs => ⟨invV_step v hn old new s op s' hi.1 hs,
-                           invD_step v hv old new s op s' hi.2 hi.1 hs⟩)
+                           invD_step v hv old old new s op s' hi.2 hi.1 hs⟩)
     (init old) s ops ⟨invV_init old new, invD_init old new⟩ hr
   exact this
+
+/-- the same from any file system a save can start on (a temp file may be left over): the
+    offsets file keeps what it held when the save started, or gets the new snapshot -/
+theorem inv_run_from (v : Variant) (hv : Syncing v) (fs0 : FS) (new : Bytes)
+    (ops : List Op) (s : St) (hr : run v new ⟨fs0, .start⟩ ops = some s) :
+    InvV fs0.cur.vol new s ∧ InvD fs0.cur.dur new s := by
+  have hn : NotOrigFile v := by cases v <;> simp_all [Syncing, NotOrigFile]
+  exact TS.invariant_of_step (step? v new) (fun s => InvV fs0.cur.vol new s ∧ InvD fs0.cur.dur new s)
+    (fun s op s' hi hs => ⟨invV_step v hn _ new s op s' hi.1 hs,
+                           invD_step v hv _ _ new s op s' hi.2 hi.1 hs⟩)
+    ⟨fs0, .start⟩ s ops ⟨by simp [InvV], by simp [InvD]⟩ hr
+
+theorem beginSave_cur (v : Variant) (fs : FS) : (beginSave v fs).cur = fs.cur := by
+  unfold beginSave; split <;> rfl
+
+/-- histories: after any number of saves — each with any failure pattern, stopped anywhere, temp
+    files of interrupted saves left behind — the offsets file holds what it held at the start or the
+    buffer of one of the saves, on both levels -/
+theorem hist_inv (v : Variant) (hv : Syncing v) (saves : List (Bytes × List Op)) (fs0 fs : FS)
+    (hr : runHist v fs0 saves = some fs) :
+    (fs.cur.vol = fs0.cur.vol ∨ ∃ sv ∈ saves, fs.cur.vol = some sv.1) ∧
+    (fs.cur.dur = fs0.cur.dur ∨ ∃ sv ∈ saves, fs.cur.dur = some sv.1) := by
+  induction saves generalizing fs0 with
+  | nil => simp [runHist] at hr; subst hr; simp
+  | cons sv rest ih =>
+    obtain ⟨data, ops⟩ := sv
+    simp only [runHist] at hr
+    split at hr
+    · simp at hr
+    · rename_i s hs
+      obtain ⟨hv1, hd1⟩ := inv_run_from v hv (beginSave v fs0) data ops s hs
+      rw [beginSave_cur] at hv1 hd1
+      obtain ⟨ihv, ihd⟩ := ih s.fs hr
+      constructor
+      · rcases ihv with h | ⟨x, hx, h⟩
+        · rcases hv1.1 with h1 | h1
+          · left; rw [h, h1]
+          · right; exact ⟨(data, ops), by simp, by rw [h, h1]⟩
+        · right; exact ⟨x, by simp [hx], h⟩
+      · rcases ihd with h | ⟨x, hx, h⟩
+        · rcases hd1.1 with h1 | h1
+          · left; rw [h, h1]
+          · right; exact ⟨(data, ops), by simp, by rw [h, h1]⟩
+        · right; exact ⟨x, by simp [hx], h⟩
 
 theorem invV_run (v : Variant) (hv : NotOrigFile v) (old : Option Bytes) (new : Bytes)
     (ops : List Op) (s : St) (hr : run v new (init old) ops = some s) : InvV old new s :=
@@ -139,6 +190,7 @@ theorem orig_step_fixed (data : Bytes) (s s' : St) (op : Op) (hok : opOk op = tr
   obtain ⟨fs, pc⟩ := s
   cases op with
   | openTrunc ok => cases ok <;> cases pc <;> simp_all [step?, next]
+  | openKeep ok => cases ok <;> cases pc <;> simp_all [step?, next]
   | write n ok =>
     cases ok <;> cases pc <;> simp_all [step?, next, opOk]
   | fsync ok => cases ok <;> cases pc <;> simp_all [step?, next, opOk]
